@@ -309,10 +309,38 @@ Fixpoint own_results (l : list (nat * nat)) : bool :=
 (** A recorded execution of the real ring with 2^k slots whose counters started at [start]: [np]
     commands were put, written and completed, everybody received a result. *)
 Inductive case :=
-| RingTrace (k : nat) (start : N) (ts : list tstep) (np : nat).
+| RingTrace (k : nat) (start : N) (ts : list tstep) (np : nat)
+| RingEnc (k : nat) (start : N) (ds : list N) (np : nat).
+
+(** compact encoding of a trace as a list of numbers (the case files are much cheaper to parse);
+    a number packs kind (4 bits), p (12), s (4), code+1 or 0 (2), item+1 or 0 (13) *)
+Definition dec_label (kind p s : nat) : label :=
+  match kind with
+  | 0 => PutTicket | 1 => PutLock p s | 2 => PutBcast p s | 3 => WNext | 4 => WWaitEnter | 5 => WWaitRetry
+  | 6 => RNext | 7 => RDeliver p | 8 => RUnlock | 9 => RSignal None | _ => RSignal (Some p)
+  end.
+
+Definition dec_opt (x : N) : option nat := if N.eqb x 0 then None else Some (N.to_nat (x - 1)).
+
+Definition dec_step (x : N) : tstep :=
+  {| t_label := dec_label (N.to_nat (x mod 16)) (N.to_nat ((x / 16) mod 4096)) (N.to_nat ((x / 65536) mod 16));
+     t_code := dec_opt ((x / 1048576) mod 4);
+     t_item := dec_opt ((x / 4194304) mod 8192) |}.
+
+Definition dec_steps (ds : list N) : list tstep := map dec_step ds.
+
+Definition check_trace (k : nat) (start : N) (ts : list tstep) (np : nat) : bool :=
+      match replay k ts (init start) with
+      | Some st =>
+          slots_quiet (slots st) (2 ^ k) && Nat.eqb (nw st) np && Nat.eqb (n1 st) np && Nat.eqb (n2 st) np &&
+          Nat.eqb (length (recv st)) np && own_results (recv st) &&
+          match rpc st with RIdle => true | _ => false end
+      | None => false
+      end.
 
 Definition check_case (c : case) : bool :=
   match c with
+  | RingEnc k start ds np => check_trace k start (dec_steps ds) np
   | RingTrace k start ts np =>
       match replay k ts (init start) with
       | Some st =>
